@@ -25,16 +25,45 @@ for ex in sorted(glob.glob(os.path.join(fw.COQ, "theories", "Extract_*.v"))):
     except fw.BuildError as e:
         print("ERROR model %s: %s" % (area, e))
         rc |= 1
-for src in sorted(glob.glob(os.path.join(fw.ROOT, "harness", "*.c*"))):
+import concurrent.futures as cf, importlib, re as _re
+sys.path.insert(0, os.path.join(fw.ROOT, "checks"))
+
+
+def _extra_flags(name):
+    """the extra compiler flags the owning check passes to build_harness (found by scanning checks/*.py)"""
+    for f in glob.glob(os.path.join(fw.ROOT, "checks", "*.py")):
+        txt = open(f).read()
+        m = _re.search(r'build_harness\(\s*["\']%s["\']\s*,\s*(?:extra\s*=\s*)?(\[[^\]]*\])' % _re.escape(name), txt)
+        if m:
+            try:
+                return eval(m.group(1), {})
+            except Exception:
+                return None
+    return None
+
+
+def _one(src):
     name, ext = os.path.splitext(os.path.basename(src))
     try:
         if name.startswith("smpi_"):
             fw.build_smpi_prog(name, "c" if ext == ".c" else "cpp")
         elif ext == ".cpp":
-            fw.build_harness(name)
+            uses = [f for f in glob.glob(os.path.join(fw.ROOT, "checks", "*.py")) if ('"%s"' % name) in open(f).read()]
+            fl = _extra_flags(name)
+            if fl is None and any(_re.search(r'build_harness\(\s*"%s"\s*,' % _re.escape(name), open(f).read()) for f in uses):
+                return None          # flags are computed by the check: let the check build it
+            fw.build_harness(name, fl)
+        return None
     except fw.BuildError as e:
-        print("ERROR harness %s: %s" % (name, e))
-        rc |= 1
+        return "harness %s: %s" % (name, str(e)[-600:])
+
+
+# best effort: each check rebuilds its own harness anyway (with the exact flags it wants)
+with cf.ThreadPoolExecutor(8) as ex:
+    for r in ex.map(_one, sorted(glob.glob(os.path.join(fw.ROOT, "harness", "*.c*")))):
+        if r:
+            print("WARNING", r)
+            rc |= 1
 bad = fw.coq_scan_forbidden()
 if bad:
     print("forbidden constructs:", bad)
